@@ -250,6 +250,17 @@ AmpInComment(lines) == \E i \in 1..(Len(lines) - 1) :
      /\ LastNB(L, Len(L)) > sc.cmt
      /\ \/ kn = "code" /\ N[g] = AMP
         \/ kn \in {"omp", "acc"} /\ g + 5 <= Len(N) /\ N[g + 5] = AMP
+\* a continued line (`... & ! comment`) cut directly in front of its comment:
+\* `... & &` followed by `&! comment` ends the statement
+AmpAmpThenComment(lines) == \E i \in 1..(Len(lines) - 1) :
+  LET L  == lines[i]
+      N  == lines[i + 1]
+      r  == LastNB(L, Len(L))
+      r2 == LastNB(L, r - 1)
+      g  == FirstNB(N, 1)
+      h  == FirstNB(N, g + 1)
+  IN /\ r > 1 /\ L[r] = AMP /\ r2 > 0 /\ L[r2] = AMP
+     /\ g <= Len(N) /\ N[g] = AMP /\ h <= Len(N) /\ N[h] = BANG
 \* a directive line ending in `= &` continued by a line starting with `=`/`>`
 DirOpSplit(lines) == \E i \in 1..(Len(lines) - 1) :
   LET L  == lines[i]
